@@ -102,10 +102,11 @@ def gen_query_args(rng, arity, qvars):
 
 # -- recursive templates over random data ------------------------------------
 
-def _rand_list(rng, n=None, atoms=ATOMS):
+def _rand_list(rng, n=None, atoms=ATOMS, maxn=33):
     if n is None:
-        # mostly small; now and then around the sizes where a fast path could switch (16, 32)
-        n = rng.choice([0, 1, 2, 3, 4, 5]) if rng.random() < 0.93 else rng.choice([15, 16, 17, 18, 24, 33, 40, 64, 65, 100, 129])
+        # mostly small; now and then around the sizes where a fast path could switch (16, 32, 64, 128); the largest
+        # only where the template does linear work (maxn)
+        n = rng.choice([0, 1, 2, 3, 4, 5]) if rng.random() < 0.93 else rng.choice([k for k in (15, 16, 17, 18, 24, 33, 40, 64, 65, 100, 129) if k <= maxn])
     return L([rng.choice([A(x) for x in atoms] + [I(1), C('f', A('a'))]) for _ in range(n)])
 
 
@@ -170,7 +171,7 @@ def gen_template_case(rng):
     cl = []
     if kind == 'member':
         cl = TEMPLATES['member']
-        q = ('member', [rng.choice([Q0, A('a'), C('f', Q0)]), _rand_list(rng)])
+        q = ('member', [rng.choice([Q0, A('a'), C('f', Q0)]), _rand_list(rng, maxn=129)])
     elif kind == 'member2':
         cl = TEMPLATES['member']
         # list with variables inside: aliasing between answers
@@ -187,7 +188,7 @@ def gen_template_case(rng):
         q = ('append', [Q0, rng.choice([Q1, L([A('a')])]), Q2])     # infinitely many answers: compared up to the cap
     elif kind == 'len':
         cl = TEMPLATES['len']
-        q = ('len', [_rand_list(rng), Q0])
+        q = ('len', [_rand_list(rng, maxn=129), Q0])
     elif kind == 'len_gen':
         cl = TEMPLATES['len']
         q = ('len', [Q0, _peano(rng.choice([0, 1, 2, 3, 4]))])
@@ -208,14 +209,14 @@ def gen_template_case(rng):
         q = ('sel', [rng.choice([Q0, A('a')]), _rand_list(rng), Q1])
     elif kind == 'last':
         cl = TEMPLATES['last']
-        q = ('last', [_rand_list(rng), Q0])
+        q = ('last', [_rand_list(rng, maxn=129), Q0])
     elif kind == 'steps':
         cl = TEMPLATES['steps']
         lst = _rand_list(rng, rng.choice([0, 1, 2, 5, 15, 16, 17, 18, 19, 25, 33, 40]))
         q = rng.choice([('chain', [lst, Q0]), ('chain2', [lst, Q0, Q1]), ('chain2', [lst, Q0, A('blue')])])
     elif kind == 'dup':
         cl = TEMPLATES['dup']
-        q = ('dup', [_rand_list(rng), Q0])
+        q = ('dup', [_rand_list(rng, maxn=129), Q0])
     else:
         cl = TEMPLATES['dup']
         q = ('dup', [Q0, L([rng.choice([A('a'), A('b'), Q1]) for _ in range(rng.choice([0, 2, 4, 3]))])])
